@@ -1,6 +1,7 @@
 import Driver.Common
 import Gp.Model.PoolAsm
 import Gp.Model.PoolReasm
+import Std.Data.HashSet
 /-
   Model driver for engine `pool` (C12): runs a schedule on the LTS of the selected package and prints
   the canonical observables (event sequence, final map size, per-thread status).
@@ -87,6 +88,142 @@ def doSched (d : DSt) (sched : List Nat) : String :=
     let ms := if sts.all (· == "done") then toString s.conns.length else "?"
     joinSp (["ok"] ++ evs ++ ["|", "map=" ++ ms, "|"] ++ sts)
 
+
+/-! ### Development aid: exhaustive exploration with executable (bounded) versions of the invariants -/
+
+namespace AsmX
+open Gp.Pool.Asm
+
+def ptrs (th : Thread) : List CId :=
+  (match th.pc with | .lock c => [c] | .cb c _ => [c] | .rm c => [c] | _ => []) ++ (th.snap.getD [])
+
+def stale (n : Nat) (s : State) (t : Tid) : Bool :=
+  match (s.thr t).pc, s.free with
+  | .ins _, c :: _ => (List.range n).any (fun t' => (ptrs (s.thr t')).contains c)
+  | _, _ => false
+
+def key (n : Nat) (s : State) : String :=
+  let th := (List.range n).map (fun t => let x := s.thr t; s!"{x.prog.length},{x.pos},{repr x.pc},{x.snap}")
+  let ob := (List.range s.nextC).map (fun c => let o := s.obj c; s!"{o.key.p}{o.key.d},{o.stream},{o.closed},{o.started},{o.q},{o.mu}")
+  s!"{th}|{s.conns.map (fun (k, c) => (k.p, k.d, c))}|{s.free}|{ob}|{s.nextS}|{(List.range s.nextS).map (fun i => ((s.skey i).p, (s.skey i).d, s.kept i))}|{s.log.length}"
+
+def ncomp (s : State) (sid : SId) : Nat := (s.log.filter (fun e => match e with | .complete x _ => x == sid | _ => false)).length
+
+def headKey (th : Thread) : Option Key := match th.prog with | .pkt k _ :: _ => some k | _ => none
+
+/-- returns the name of the first violated candidate invariant -/
+def check (n : Nat) (ns : Bool) (s : State) : Option String := Id.run do
+  let ts := List.range n
+  let cs := List.range s.nextC
+  let ss := List.range s.nextS
+  for t in ts do
+    let th := s.thr t
+    match th.pc with
+    | .cb c _ => if (s.obj c).mu != some t then return some "M1"
+    | .rm c => if (s.obj c).mu != some t then return some "M1"
+    | .panicked => return some "P"
+    | .ins sid =>
+      if !(sid < s.nextS) then return some "F7a"
+      if headKey th != some (s.skey sid) then return some "F7b"
+      if cs.any (fun c => (s.obj c).stream == some sid) then return some "F7c"
+      if ts.any (fun t' => t' != t && (s.thr t').pc == .ins sid) then return some "F7d"
+      if s.kept sid then return some "F7e"
+    | _ => pure ()
+    for c in ptrs th do
+      if !(c < s.nextC) then return some "S-ptr"
+    -- well-formedness
+    match th.pc, th.snap, th.prog with
+    | .start, some _, _ => return some "W1"
+    | .ins _, some _, _ => return some "W2"
+    | .ins _, none, .pkt .. :: _ => pure ()
+    | .ins _, none, _ => return some "W3"
+    | _, some _, .flush :: _ => pure ()
+    | _, some _, _ => return some "W4"
+    | .lock _, none, .pkt .. :: _ => pure ()
+    | .cb .., none, .pkt .. :: _ => pure ()
+    | .rm _, none, .pkt .. :: _ => pure ()
+    | .start, none, _ => pure ()
+    | _, _, _ => return some "W5"
+  for c in cs do
+    let o := s.obj c
+    match o.mu with
+    | some t => match (s.thr t).pc with
+      | .cb c' _ => if c' != c then return some "M2"
+      | .rm c' => if c' != c then return some "M2"
+      | _ => return some "M2"
+    | none => pure ()
+    match o.stream with
+    | none => return some "S-init"
+    | some sid =>
+      if !(sid < s.nextS) then return some "R1"
+      if s.skey sid != o.key then return some "R2"
+      if cs.any (fun c' => c' != c && (s.obj c').stream == some sid) then return some "U"
+      if ns then
+        if !o.closed && ncomp s sid != 0 then return some "N5"
+  for (_, c) in s.conns do if !(c < s.nextC) then return some "S-map"
+  for c in s.free do if !(c < s.nextC) then return some "S-free"
+  if ns then
+    for (k, c) in s.conns do
+      if (s.obj c).key != k then return some "N1a"
+      if s.free.contains c then return some "N1b"
+    if !s.free.Nodup then return some "N2c"
+    for c in s.free do
+      if !(s.obj c).closed then return some "N2a"
+      if (s.obj c).mu.isSome then return some "N2d"
+    for t in ts do
+      let th := s.thr t
+      match th.pc, th.snap, headKey th with
+      | .lock c, none, some k =>
+        if (s.obj c).key != k then return some "N3a"
+        if !(s.obj c).closed && s.conns.get k != some c then return some "N3b"
+      | .cb c _, none, some k =>
+        if (s.obj c).key != k || s.conns.get k != some c || (s.obj c).closed then return some "N4a"
+      | .rm c, none, some k =>
+        if (s.obj c).key != k || s.conns.get k != some c || !(s.obj c).closed then return some "N4b"
+      | .cb c _, some _, _ => if s.conns.get (s.obj c).key != some c || (s.obj c).closed then return some "N4c"
+      | .rm c, some _, _ => if s.conns.get (s.obj c).key != some c || !(s.obj c).closed then return some "N4d"
+      | _, _, _ => pure ()
+    for sid in ss do
+      if s.kept sid then
+        if ncomp s sid > 1 then return some "N6a"
+        if ncomp s sid == 0 then
+          match s.conns.get (s.skey sid) with
+          | some c => if (s.obj c).stream != some sid || (s.obj c).closed then return some "N6b"
+          | none => return some "N6c"
+    for e in s.log do
+      match e with
+      | .deliv sid _ _ k _ => if s.skey sid != k then return some "N7"
+      | .queue sid _ _ k => if s.skey sid != k then return some "N7q"
+      | _ => pure ()
+  return none
+
+partial def explore (n : Nat) (ns : Bool) (init : State) (maxStates : Nat) : String := Id.run do
+  let mut seen : Std.HashSet String := {}
+  let mut stack : List (State × List Nat) := [(init, [])]
+  let mut count := 0
+  let mut deadlocks := 0
+  while !stack.isEmpty && count < maxStates do
+    match stack with
+    | [] => pure ()
+    | (s, path) :: rest =>
+      stack := rest
+      let k := key n s
+      if seen.contains k then continue
+      seen := seen.insert k
+      count := count + 1
+      match check n ns s with
+      | some bad => return s!"violated {bad} after schedule {path.reverse} ({count} states)"
+      | none => pure ()
+      let mut any := false
+      for t in List.range n do
+        if ns && stale n s t then continue
+        match step s t with
+        | some s' => stack := (s', t :: path) :: stack; any := true
+        | none => pure ()
+      if !any && (List.range n).any (fun t => !(s.thr t).done) && !ns then deadlocks := deadlocks + 1
+  return s!"ok {count} states, {deadlocks} deadlocks{if stack.isEmpty then "" else " (truncated)"}"
+end AsmX
+
 def stepPool (d : DSt) (ws : List String) : DSt × String :=
   match ws with
   | ["reset"] => ({}, "ok")
@@ -103,6 +240,13 @@ def stepPool (d : DSt) (ws : List String) : DSt × String :=
     match t.toNat?, items.mapM parseItem with
     | some t, some ops => if t < d.n then ({ d with progs := d.progs.set! t ops }, "ok") else (d, "bad-op")
     | _, _ => (d, "bad-op")
+  | ["pool", "explore", m, nsf] =>
+    match m.toNat? with
+    | some m =>
+      match d.pkg with
+      | .asm => (d, AsmX.explore d.n (nsf == "ns") (Asm.init (progsFn d)) m)
+      | .reasm _ => (d, "todo")
+    | none => (d, "bad-op")
   | "pool" :: "sched" :: ts =>
     match natList ts with
     | some sched => if d.n = 0 then (d, "bad-op") else (d, doSched d sched)
